@@ -22,9 +22,17 @@ def mapping_frame(prefix):
     return [x.replace("self.", prefix) for x in LIST_FRAME]
 
 
-def declare_views(U, cache_cls, inv_macro, value_of):
+def _lru_key_at(c, t):
+    return "entry(%s, %s)[0]" % (c, t)
+
+
+def _lru_val_at(c, t):
+    return "entry(%s, %s)[1]" % (c, t)
+
+
+def declare_views(U, cache_cls, inv_macro, value_of, key_at=_lru_key_at, val_at=_lru_val_at, item_frame=()):
     """stdlib mapping views + mixins over a cache class whose invariant is the macro `inv_macro(C)`;
-    value_of(C, k): expression for the value stored under key k"""
+    value_of(C, k): expression for the value stored under key k; key_at/val_at(C, t): key / value of the t-th entry in list order"""
     S = U.module("stdlib:_collections_abc")
     MV = S.cls("MappingView", fields={"_mapping": RefS(cache_cls)})
     m = MV.method("__init__", {"mapping": RefS(cache_cls)})
@@ -35,13 +43,13 @@ def declare_views(U, cache_cls, inv_macro, value_of):
     m.ensures("result == len(self._mapping.cache)", "len(view)=number-of-entries")
     for vc in ("KeysView", "ItemsView", "ValuesView"):
         S.cls(vc)
-    frame = mapping_frame("self._mapping.")
+    frame = mapping_frame("self._mapping.") + list(item_frame)
     common_pre = "self._mapping != None and %s(self._mapping)" % inv_macro
     # keys(): yield from the mapping's own iterator
     m = S.classes["KeysView"].method("__iter__", {}, yields=ANY, inv_pre=False, inv_post=False)
     m.requires(common_pre)
     m.ensures("len(yielded) == len(self._mapping.cache)", "one-key-per-entry")
-    m.ensures("forall(t, 0, len(yielded), yielded[t] == entry(self._mapping, t)[0], trigger=yielded[t])", "keys-in-iteration-order")
+    m.ensures("forall(t, 0, len(yielded), yielded[t] == %s, trigger=yielded[t])" % key_at("self._mapping", "t"), "keys-in-iteration-order")
     # values() / items(): look every key up through __getitem__ (which, for the caches, reorders the list being described)
     for vc, elt, what in (("ValuesView", "%s", "value"), ("ItemsView", "tup(_seq1[t], %s)", "(key,value)")):
         m = S.classes[vc].method("__iter__", {}, yields=ANY if vc == "ValuesView" else TupS(ANY, ANY), inv_pre=False, inv_post=False)
@@ -54,7 +62,7 @@ def declare_views(U, cache_cls, inv_macro, value_of):
         lp.invariant("forall(t, 0, _i1, yielded[t] == " + (elt % value_of("self._mapping", "_seq1[t]")) + ", trigger=yielded[t])")
         m.ensures("len(yielded) == len(self._mapping.cache)", "one-%s-per-entry(terminates)" % what)
         m.ensures("forall(t, 0, len(yielded), yielded[t] == "
-                  + (elt.replace("_seq1[t]", "old(entry(self._mapping, t)[0])") % ("old(entry(self._mapping, t)[1])"))
+                  + (elt.replace("_seq1[t]", "old(%s)" % key_at("self._mapping", "t")) % ("old(%s)" % val_at("self._mapping", "t")))
                   + ", trigger=yielded[t])", "%ss-agree-with-content-in-iteration-order" % what)
         m.ensures("same(self._mapping.cache, old(self._mapping.cache)) and %s(self._mapping)" % inv_macro, "content-unchanged")
     return S
